@@ -38,6 +38,9 @@ structure LimitsD where
   maxFragments : Nat   -- maxHandshakeFragments
   /-- handshake records are dropped once the handshake is complete (F42 repaired) -/
   refusePostHs : Bool
+  /-- readRecordOrCCS returns, instead of reading another datagram, once it has delivered
+  handshake data or the ChangeCipherSpec (repaired: a single call no longer spans datagrams) -/
+  deliveredGuard : Bool
   deriving Repr, DecidableEq
 
 structure LibD where
@@ -118,19 +121,20 @@ def setErr (s : StD) : StD := { s with inErr := true }
 /-- how one iteration of the loop of readRecordOrCCS ends -/
 inductive PassD
   | done (r : Outcome Unit)    -- return
-  | again (expectCCS : Bool)   -- continue
+  | again (expectCCS : Bool) (delivered : Bool)   -- continue
   | retry                      -- return c.retryReadRecord(…)
   deriving Repr, DecidableEq
 
 /-- what is done with the plaintext of a record that passed the epoch / replay checks;
 the record has already been cut off `rawInputBuf` -/
-def dispatch (L : LimitsD) (lib : LibD) (s : StD) (expectCCS : Bool) (typ : UInt8) (data : Bytes) : StD × PassD :=
+def dispatch (L : LimitsD) (lib : LibD) (s : StD) (expectCCS dlv : Bool) (typ : UInt8) (data : Bytes) : StD × PassD :=
   if typ == 21 then
     if data.length ≠ 2 then (setErr s, .done (.err .unexpected)) else
     match idx data 1, idx data 0 with
     | .ok d1, .ok d0 =>
       if d1 == 0 then (setErr s, .done (.err .short))
-      else if d0 == 1 then ({ s with raw := [] }, .retry)
+      else if d0 == 1 then
+        (if dlv && L.deliveredGuard then ({ s with raw := [] }, .done (.ok ())) else ({ s with raw := [] }, .retry))
       else (setErr s, .done (.err .unexpected))
     | _, _ => (s, .done .panic)
   else if typ == 20 then
@@ -138,80 +142,103 @@ def dispatch (L : LimitsD) (lib : LibD) (s : StD) (expectCCS : Bool) (typ : UInt
     match idx data 0 with
     | .ok d0 =>
       if d0 != 1 then (setErr s, .done (.err .unexpected))
-      else if s.complete && lib.dwell then (s, .again expectCCS)
+      else if s.complete && lib.dwell then (s, .again expectCCS dlv)
       else if !expectCCS && s.hand.length > 0 then ({ s with deferredCCS := true }, .done (.ok ()))
       else if !expectCCS then (setErr s, .done (.err .unexpected))
       else if !s.nextCipher then (setErr s, .done (.err .unexpected))
       else
         let s := { s with prot := true, nextCipher := false, readEpoch := s.readEpoch + 1, seen := [] }
-        if s.raw.length > 0 then (s, .again false) else (s, .done (.ok ()))
+        if s.raw.length > 0 then (s, .again false true) else (s, .done (.ok ()))
     | _ => (s, .done .panic)
   else if typ == 23 then
     if !s.complete || expectCCS then (setErr s, .done (.err .unexpected))
-    else if data.length == 0 then (s, .again expectCCS)
+    else if data.length == 0 then (s, .again expectCCS dlv)
     else ({ s with readBuf := data.length }, .done (.ok ()))
   else if typ == 22 then
-    if s.complete && lib.dwell then (s, .again expectCCS)
+    if s.complete && lib.dwell then (s, .again expectCCS dlv)
     else if data.length == 0 || expectCCS then (setErr s, .done (.err .unexpected))
-    else if s.complete && L.refusePostHs then (s, .again expectCCS)
+    else if s.complete && L.refusePostHs then (s, .again expectCCS dlv)
     else
       let s := { s with hand := s.hand ++ data }
-      if s.raw.length > 0 then (s, .again expectCCS) else (s, .done (.ok ()))
+      if s.raw.length > 0 then (s, .again expectCCS true) else (s, .done (.ok ()))
   else (setErr s, .done (.err .unexpected))
 
-/-- one iteration of the loop of `Conn.readRecordOrCCS` -/
-def iter (L : LimitsD) (lib : LibD) (s : StD) (expectCCS : Bool) : StD × PassD :=
+/-- first half of an iteration -/
+inductive Prep
+  | result (p : PassD)                       -- the iteration ends here
+  | record (typ : UInt8) (data : Bytes)      -- a record passed all checks; it is cut off rawInputBuf
+  deriving Repr
+
+/-- top of the loop of `Conn.readRecordOrCCS`: `c.readBuf = nil`, the early return once something
+was delivered, and `readDatagram` when the rest of the current datagram cannot hold a record
+header.  `some p`: the iteration ends with `p`. -/
+def fetchD (L : LimitsD) (s : StD) (dlv : Bool) : StD × Option PassD :=
   let s := { s with readBuf := 0 }
-  -- readDatagram when the rest of the current datagram cannot hold a record header
-  let fetched : Option StD :=
-    if s.raw.length < L.hdr then
-      match s.dgrams with
-      | [] => none
-      | d :: ds => some { s with dgrams := ds, raw := d.take (L.maxCiphertext + L.hdr) }
-    else some s
-  match fetched with
-  | none => (s, .done (.err .timeout))        -- timeout: not a permanent error
-  | some s =>
+  if s.raw.length < L.hdr && dlv && L.deliveredGuard then ({ s with raw := [] }, some (.done (.ok ()))) else
   if s.raw.length < L.hdr then
-    if s.complete then ({ s with raw := [] }, .again expectCCS) else (setErr s, .done (.err .short))
+    match s.dgrams with
+    | [] => (s, some (.done (.err .timeout)))        -- timeout: not a permanent error
+    | d :: ds => ({ s with dgrams := ds, raw := d.take (L.maxCiphertext + L.hdr) }, none)
+  else (s, none)
+
+/-- `if epoch > c.readEpoch { c.readEpoch = epoch; c.replayWindow = newReplayWindow(…) }` -/
+def epochFor (readEpoch epoch : Nat) : Nat := if epoch > readEpoch then epoch else readEpoch
+def seenFor (readEpoch : Nat) (seen : List Nat) (epoch : Nat) : List Nat := if epoch > readEpoch then [] else seen
+
+/-- header checks, decryption, epoch and replay checks on the current datagram remainder -/
+def checkD (L : LimitsD) (lib : LibD) (s : StD) (expectCCS dlv : Bool) : StD × Prep :=
+  if s.raw.length < L.hdr then
+    if s.complete then ({ s with raw := [] }, .result (.again expectCCS dlv)) else (setErr s, .result (.done (.err .short)))
   else
   match splitD L.hdr L.maxCiphertext s.haveVers s.vers s.raw (s.hand.length == 0) with
-  | .panic => (s, .done .panic)
+  | .panic => (s, .result (.done .panic))
   | .err e =>
     -- a first-record failure is always fatal; the others are dropped once the handshake is complete
-    if s.complete && e != .first then ({ s with raw := [] }, .again expectCCS) else (setErr s, .done (.err e))
+    if s.complete && e != .first then ({ s with raw := [] }, .result (.again expectCCS dlv)) else (setErr s, .result (.done (.err e)))
   | .ok sp =>
   let plain : Option Bytes := if s.prot then lib.dec sp.record else some (sp.record.drop L.hdr)
   match plain with
   | none =>
-    if s.complete then ({ s with raw := sp.rest }, .again expectCCS) else (setErr s, .done (.err .badmac))
+    if s.complete then ({ s with raw := sp.rest }, .result (.again expectCCS dlv)) else (setErr s, .result (.done (.err .badmac)))
   | some data =>
-  if sp.epoch < s.readEpoch then ({ s with raw := sp.rest }, .again expectCCS) else
-  let s := if sp.epoch > s.readEpoch then { s with readEpoch := sp.epoch, seen := [] } else s
-  if !lib.replayOk s.seen sp.seq then ({ s with raw := sp.rest }, .again expectCCS) else
+  if sp.epoch < s.readEpoch then ({ s with raw := sp.rest }, .result (.again expectCCS dlv)) else
+  -- a newer epoch starts a fresh replay window
+  let s := { s with seen := seenFor s.readEpoch s.seen sp.epoch, readEpoch := epochFor s.readEpoch sp.epoch }
+  if !lib.replayOk s.seen sp.seq then ({ s with raw := sp.rest }, .result (.again expectCCS dlv)) else
   let s := { s with seen := sp.seq :: s.seen }
-  if data.length > L.maxPlaintext then (setErr s, .done (.err .overflow)) else
-  if !s.prot && sp.typ == 23 then (setErr s, .done (.err .unexpected)) else
-  let s := { s with retry := if sp.typ != 21 && sp.typ != 20 && data.length > 0 then 0 else s.retry, raw := sp.rest }
-  dispatch L lib s expectCCS sp.typ data
+  if data.length > L.maxPlaintext then (setErr s, .result (.done (.err .overflow))) else
+  if !s.prot && sp.typ == 23 then (setErr s, .result (.done (.err .unexpected))) else
+  ({ s with retry := if sp.typ != 21 && sp.typ != 20 && data.length > 0 then 0 else s.retry, raw := sp.rest }, .record sp.typ data)
 
-/-- `readRecordOrCCS` + `retryReadRecord`: recursion on the input still to come -/
-def readLoop (L : LimitsD) (lib : LibD) (s : StD) (expectCCS : Bool) : StD × Outcome Unit :=
-  match iter L lib s expectCCS with
+/-- first half of one iteration -/
+def prep (L : LimitsD) (lib : LibD) (s : StD) (expectCCS dlv : Bool) : StD × Prep :=
+  match fetchD L s dlv with
+  | (s1, some p) => (s1, .result p)
+  | (s1, none) => checkD L lib s1 expectCCS dlv
+
+/-- one iteration of the loop of `Conn.readRecordOrCCS` -/
+def iter (L : LimitsD) (lib : LibD) (s : StD) (expectCCS dlv : Bool) : StD × PassD :=
+  match prep L lib s expectCCS dlv with
+  | (s1, .result p) => (s1, p)
+  | (s1, .record typ data) => dispatch L lib s1 expectCCS dlv typ data
+
+/-- `readRecordOrCCS` + `retryReadRecord`: recursion on the input still to come; `dlv` is the
+`delivered` flag of the running call (a retry starts a new call) -/
+def readLoop (L : LimitsD) (lib : LibD) (s : StD) (expectCCS dlv : Bool) : StD × Outcome Unit :=
+  match iter L lib s expectCCS dlv with
   | (s1, .done r) => (s1, r)
-  | (s1, .again e) =>
-    if h : s1.mu < s.mu then readLoop L lib s1 e else (s1, .err .stuck)
+  | (s1, .again e d) =>
+    if h : s1.mu < s.mu then readLoop L lib s1 e d else (s1, .err .stuck)
   | (s1, .retry) =>
     let s2 := { s1 with retry := s1.retry + 1 }
     if s2.retry > L.maxUseless then (setErr s2, .err .unexpected)
-    else if s2.inErr then (s2, .err .unexpected)
-    else if h : s2.mu < s.mu then readLoop L lib s2 expectCCS else (s2, .err .stuck)
+    else if h : s2.mu < s.mu then readLoop L lib s2 expectCCS false else (s2, .err .stuck)
 termination_by s.mu
 
 def readRecord (L : LimitsD) (lib : LibD) (s : StD) (expectCCS : Bool) : StD × Outcome Unit :=
   if s.inErr then (s, .err .unexpected) else
   if s.readBuf ≠ 0 then (setErr s, .err .unexpected) else
-  readLoop L lib s expectCCS
+  readLoop L lib s expectCCS false
 
 /-- `for c.handBuf.Len() < need { c.readRecord() }` -/
 def readUntil (L : LimitsD) (lib : LibD) (s : StD) (need : Nat) : StD × Outcome Unit :=
@@ -234,52 +261,62 @@ def fragLenOf (hand : Bytes) : Nat :=
   | _ :: _ :: _ :: _ :: _ :: _ :: _ :: _ :: _ :: b9 :: b10 :: b11 :: _ => be24 b9 b10 b11
   | _ => 0
 
-/-- the `for { fragmentReads++ … }` loop of `Conn.readHandshake`; `reads0` = fragmentReads so far -/
-def fragLoop (L : LimitsD) (lib : LibD) (s : StD) (reads0 : Nat) : StD × Outcome (UInt8 × Nat) :=
-  let reads := reads0 + 1
-  if reads > L.maxFragments then (setErr s, .err .unexpected) else
+/-- how one iteration of the loop of readHandshake ends -/
+inductive FragPass
+  | done (r : Outcome (UInt8 × Nat))   -- return
+  | more                               -- `continue`: the message is not complete yet
+  deriving Repr
+
+/-- one iteration of the `for { fragmentReads++ … }` loop of `Conn.readHandshake` (after the
+`fragmentReads` test) -/
+def fragStep (L : LimitsD) (lib : LibD) (s : StD) : StD × FragPass :=
   match readUntil L lib s L.hsHdr with
-  | (s1, .err e) => (s1, .err e)
-  | (s1, .panic) => (s1, .panic)
+  | (s1, .err e) => (s1, .done (.err e))
+  | (s1, .panic) => (s1, .done .panic)
   | (s1, .ok ()) =>
   match frameD L.maxHandshake L.hsHdr s1.hand with
-  | .panic => (s1, .panic)
-  | .err e => (setErr s1, .err e)
+  | .panic => (s1, .done .panic)
+  | .err e => (setErr s1, .done (.err e))
   | .ok _ =>
   match readUntil L lib s1 (L.hsHdr + fragLenOf s1.hand) with
-  | (s2, .err e) => (s2, .err e)
-  | (s2, .panic) => (s2, .panic)
+  | (s2, .err e) => (s2, .done (.err e))
+  | (s2, .panic) => (s2, .done .panic)
   | (s2, .ok ()) =>
   match frameD L.maxHandshake L.hsHdr s2.hand with
-  | .panic => (s2, .panic)
-  | .err e => (setErr s2, .err e)
-  | .ok .needMore => (s2, .err .bounds)
+  | .panic => (s2, .done .panic)
+  | .err e => (setErr s2, .done (.err e))
+  | .ok .needMore => (s2, .done (.err .bounds))
   | .ok (.frag f) =>
     let s3 := { s2 with hand := f.rest }
-    let finish (s : StD) (len : Nat) : StD × Outcome (UInt8 × Nat) :=
-      if !knownTypeD f.typ then (setErr s, .err .unexpected)
-      else if !lib.unmarshalOk f.body then (setErr s, .err .unexpected)
-      else (s, .ok (f.typ, len))
+    let finish (s : StD) (len : Nat) : StD × FragPass :=
+      if !knownTypeD f.typ then (setErr s, .done (.err .unexpected))
+      else if !lib.unmarshalOk f.body then (setErr s, .done (.err .unexpected))
+      else (s, .done (.ok (f.typ, len)))
     if f.fragLen < f.bodyLen || f.fragOff > 0 then
       -- cleanupStaleFragments
       let p := s3.pending.filter (fun b => !lib.stale b.seq)
       match lookup p f.msgSeq with
       | some fb =>
-        if fb.total ≠ f.bodyLen then (setErr { s3 with pending := p }, .err .bounds) else
+        if fb.total ≠ f.bodyLen then (setErr { s3 with pending := p }, .done (.err .bounds)) else
         let fb := fb.add f.fragOff f.fragLen
-        if !fb.complete then
-          let s4 := { s3 with pending := fb :: erase p f.msgSeq }
-          if h : L.maxFragments + 1 - reads < L.maxFragments + 1 - reads0 then fragLoop L lib s4 reads
-          else (s4, .err .stuck)
+        if !fb.complete then ({ s3 with pending := fb :: erase p f.msgSeq }, .more)
         else finish { s3 with pending := erase p f.msgSeq } (L.hsHdr + f.bodyLen)
       | none =>
         let fb := (PBuf.new f.msgSeq f.bodyLen).add f.fragOff f.fragLen
-        if !fb.complete then
-          let s4 := { s3 with pending := fb :: p }
-          if h : L.maxFragments + 1 - reads < L.maxFragments + 1 - reads0 then fragLoop L lib s4 reads
-          else (s4, .err .stuck)
+        if !fb.complete then ({ s3 with pending := fb :: p }, .more)
         else finish { s3 with pending := p } (L.hsHdr + f.bodyLen)
     else finish s3 (L.hsHdr + f.fragLen)
+
+/-- the `for { fragmentReads++ … }` loop of `Conn.readHandshake`; `reads0` = fragmentReads so
+far: recursion on the fragment budget -/
+def fragLoop (L : LimitsD) (lib : LibD) (s : StD) (reads0 : Nat) : StD × Outcome (UInt8 × Nat) :=
+  let reads := reads0 + 1
+  if reads > L.maxFragments then (setErr s, .err .unexpected) else
+  match fragStep L lib s with
+  | (s1, .done r) => (s1, r)
+  | (s1, .more) =>
+    if h : L.maxFragments + 1 - reads < L.maxFragments + 1 - reads0 then fragLoop L lib s1 reads
+    else (s1, .err .stuck)
 termination_by L.maxFragments + 1 - reads0
 
 /-- `Conn.readHandshake` -/
